@@ -591,6 +591,12 @@ func filestat(h FileLister, r *Request, pkt requestPacket) responsePacket {
 	n, err := lister.ListAt(finfo, 0)
 	finfo = finfo[:n] // avoid need for nil tests below
 
+	// This lister was obtained for this one request and is referenced nowhere else:
+	// close it now, as the ListerAt documentation promises for listers that are io.Closers.
+	if c, ok := lister.(io.Closer); ok {
+		c.Close()
+	}
+
 	switch r.Method {
 	case "Stat", "Lstat":
 		if err != nil && err != io.EOF {
